@@ -1,6 +1,9 @@
 (* C05 driver.
    (case ID (pool (SYMHEX PREC)...) (opts REAL STATE QUERY BASIS KP KD KT FLAT DEPTH EMPTY)
-            (posts (XACT PAYEEHEX XSTATE PSTATE (SEGHEX...) VIRTUAL AMT COST)...))
+            (posts (XACT PAYEEHEX XSTATE PSTATE (SEGHEX...) VIRTUAL AMT COST DATE INFERRED [DEFERRED IDHEX])...))
+   DEFERRED = 1 for a posting written <Account>; IDHEX = xact id (UUID tag, else the sequence number).
+   The register quantities (reg, col) are computed on the file order, the balance quantities
+   (bal, grand, lay, own) on Model/Deferred.v account_view = the journal as account->posts hold it.
    AMT = (NUM DEN PREC KEEP COMMHEX) ; COST = AMT | none ; STATE = any|cleared|uncleared|pending ;
    QUERY = none | ((acct HEX)|(payee HEX) ...) ; DEPTH = none | N ; x/p state = u|p|c
    Output lines "ID <kind> ..." (see harness/props/c05.py). *)
@@ -32,7 +35,9 @@ let amt_of = function
 
 let state_of s = match s with "u" -> Uncleared | "p" -> Pending | "c" -> Cleared | _ -> failwith "state"
 
-let post_of = function
+let rec post_of = function
+  | L [x; payee; xs; pst; L segs; virt; a; cost; date; inferred; _; _] ->
+    post_of (L [x; payee; xs; pst; L segs; virt; a; cost; date; inferred])
   | L [x; payee; xs; pst; L segs; virt; a; cost; date; inferred] ->
     { p_xact = zatom x; p_payee = hexs (atom payee); p_xstate = state_of (atom xs);
       p_pstate = state_of (atom pst); p_acct = List.map (fun s -> hexs (atom s)) segs;
@@ -40,6 +45,12 @@ let post_of = function
       p_cost = (match cost with A "none" -> None | c -> Some (amt_of c));
       p_date = zatom date; p_inferred = batom inferred; p_temp = false }
   | _ -> failwith "post"
+
+let jpost_of sx =
+  match sx with
+  | L [_; _; _; _; _; _; _; _; _; _; d; id] ->
+    { jp_post = post_of sx; jp_deferred = batom d; jp_id = hexs (atom id) }
+  | _ -> { jp_post = post_of sx; jp_deferred = false; jp_id = [] }
 
 let opts_of = function
   | L [A "opts"; real; st; q; basis; kp; kd; kt; flat; depth; empty; bg; en] ->
@@ -63,13 +74,16 @@ let name_of (a : z list list) = String.concat ":" (List.map string_of_str a)
 exception Model_err of string
 let get = function Ok v -> v | Err e -> raise (Model_err (err_name e))
 
-let output ord cp o ps want =
+let output ord cp o js want =
+  (* xact->posts in file order / account->posts, account by account *)
+  let ps_file = List.map (fun j -> j.jp_post) js in
+  let ps_acct = account_view js in
   let lines = ref [] in
   let add s = lines := s :: !lines in
   let has w = List.mem w want in
   (try
     if has "reg" then begin
-      let rows = get (reg_rows ord o ps) in
+      let rows = get (reg_rows ord o ps_file) in
       List.iter (fun r ->
           let da = get (display_value ord o r.r_amt) and dt = get (display_value ord o r.r_total) in
           let sh = get (row_shown ord cp o r) in
@@ -77,32 +91,32 @@ let output ord cp o ps want =
                  (show_value r.r_total) (show_value da) (show_value dt) (if sh then 1 else 0))) rows
     end;
     if has "bal" then begin
-      let rows = get (bal_rows ord cp o ps) in
+      let rows = get (bal_rows ord cp o ps_acct) in
       List.iter (fun b ->
           add (Printf.sprintf "bal %s|%s|%s" (name_of b.b_acct) (show_value b.b_total) (show_value b.b_disp))) rows;
-      let g = get (grand_total ord o ps) in
+      let g = get (grand_total ord o ps_acct) in
       add (Printf.sprintf "grand %s|%s" (show_value g.b_total) (show_value g.b_disp));
       add (Printf.sprintf "nrows %d" (List.length rows))
     end;
     if has "lay" then begin
-      let rows = get (bal_layout ord cp o ps) in
+      let rows = get (bal_layout ord cp o ps_acct) in
       let rec nat_int = function O -> 0 | S n -> 1 + nat_int n in
       List.iter (fun l ->
           add (Printf.sprintf "lay %s|%d|%s" (name_of l.l_acct) (nat_int l.l_spacer) (name_of l.l_partial))) rows
     end;
     if has "lay" then
-      add (Printf.sprintf "layok %d" (if get (layout_ok ord cp o ps) then 1 else 0));
+      add (Printf.sprintf "layok %d" (if get (layout_ok ord cp o ps_acct) then 1 else 0));
     if has "own" then begin
       (* account_t::amount of every account of the tree (pre-order) *)
-      let m = get (mark (max_depth ps) ord cp o ps []) in
+      let m = get (mark (max_depth ps_acct) ord cp o ps_acct []) in
       List.iter (fun (a, _) ->
-          let v = simplified_or_zero (get (own_lazy_twice ord o ps a)) in
+          let v = simplified_or_zero (get (own_lazy_twice ord o ps_acct a)) in
           add (Printf.sprintf "own %s|%s" (name_of a) (show_value v))) m.m_pre
     end;
     if has "col" then begin
       match o.o_depth with
       | Some n ->
-        let gs = get (collapsed_rows ord n o ps) in
+        let gs = get (collapsed_rows ord n o ps_file) in
         List.iteri (fun k g ->
             List.iter (fun (a, v) -> add (Printf.sprintf "col %d %s|%s" k (name_of a) (show_value v)))
               g) gs
@@ -120,7 +134,7 @@ let handle line =
       let base = (match String.index_opt s '~' with Some i -> String.sub s 0 i | None -> s) in
       (try List.assoc base tbl with Not_found -> Z0) in
     let o = opts_of o in
-    let ps = List.map post_of posts in
+    let ps = List.map jpost_of posts in
     let want = List.map atom want in
     let r1 = output false cp o ps want and r2 = output true cp o ps want in
     let body = if r1 = r2 then r1 else ("ORDER-DEPENDENT" :: r1) in
